@@ -22,8 +22,9 @@ PARTIAL = ["C19_decorrelation_is_trapezoid / C19_descending / C19_optimal_series
            "the eigen-decomposition of the target, the factorisation of C0 and the inverse of C0_sqrt are oracles with checked residuals; "
            "existence and completeness of the eigen-oracle answer (spectral theorem) are not proved",
            "characteristic 2 excluded (1 + 1 <> 0) for the factor 1/2"]
-REFUTED = ["C19_decorrelation_refuted: on the faithful model (singular values of the symmetric target taken as eigenvalues, as the source does) "
-           "a 5 x 1 series has own trapezoidal sum -1/18 and reported decorrelation time +1/18 (F-19)"]
+REFUTED = ["C19_decorrelation_refuted is a theorem about the DEFECT variant of the model (use_svd_as_eig = true: singular values of the symmetric "
+           "target taken as eigenvalues, what the source did before the F-19 repair): a 5 x 1 series has own trapezoidal sum -1/18 and reported "
+           "decorrelation time +1/18. The variant tied to the source is selected by the generated flag opa_eigen_via_svd (C19_variant_matches_source)"]
 TRUSTED = ["xarray semantics of shift/dropna/xr.dot (inner join on the sample labels) and of rename, as encoded by the T5opa translator",
            "numpy eigh/inv answers enter as oracle tables; their residuals are re-checked in Coq against the model's own matrices",
            "Coq.Reals axioms in C19_descending, C19_optimal, C19_optimal_series, C19_decorrelation_refuted"]
